@@ -588,6 +588,61 @@ def _banner_worker(_):
                     if back != ref.banner(proto, sw, comment, True):
                         acc.violation('banner:compose_differs', 'banner %r re-composes as %r' % (wire, back), w)
                     acc.state(core.h64('banner', wire))
+    # RFC 4253 s4.2: "The maximum length of the string is 255 characters, including the Carriage Return and Line
+    # Feed."  Every total length around the limit, padded in the software version or in the comment, CR LF and bare LF
+    # (tolerated input); and the same objects built directly.  Whatever compose() emits must be within the limit.
+    from cryptoparser.ssh.version import SshProtocolVersion, SshVersion, SshSoftwareVersionUnparsed
+    for total in range(249, 260):
+        for crlf in (True, False):
+            for where in ('software', 'comment'):
+                fixed = len('SSH-2.0-') + (2 if crlf else 1)
+                if where == 'software':
+                    sw, comment = 'a' * (total - fixed), None
+                else:
+                    sw, comment = 'OpenSSH_8.9', 'c' * (total - fixed - len('OpenSSH_8.9 '))
+                wire = ref.banner('2.0', sw, comment, crlf)
+                assert len(wire) == total
+                acc.counters['transitions'] = acc.counters.get('transitions', 0) + 2
+                w = {'kind': 'banner', 'wire': wire}
+                canonical = ref.banner('2.0', sw, comment, True)
+                try:
+                    o = SshProtocolMessage.parse_exact_size(wire)
+                except Exception as e:  # noqa
+                    if crlf and total <= 255:
+                        acc.violation('banner:parse_raises:%s' % core.ename(e),
+                                      'RFC 4253 s4.2 banner of %d octets rejected' % total, w)
+                    o = None
+                if o is not None:
+                    try:
+                        back = bytes(o.compose())
+                    except Exception as e:  # noqa
+                        back = None
+                        if len(canonical) <= 255:
+                            acc.violation('banner:compose_raises:%s' % core.ename(e),
+                                          'parsed %d-octet banner does not compose' % total, w)
+                    if back is not None and len(back) > 255:
+                        acc.violation('banner:composed_longer_than_255',
+                                      'a %d-octet banner (%s) is accepted and composed as %d octets; RFC 4253 s4.2 '
+                                      'limits the identification string to 255 including CR LF'
+                                      % (total, 'CR LF' if crlf else 'bare LF', len(back)), w)
+                    elif back is not None and back != canonical:
+                        acc.violation('banner:compose_differs', 'banner %r re-composes as %r' % (wire, back), w)
+                try:
+                    built = SshProtocolMessage(SshProtocolVersion(SshVersion.SSH2), SshSoftwareVersionUnparsed(sw), comment)
+                    back = bytes(built.compose())
+                except Exception as e:  # noqa
+                    back = None
+                    if len(canonical) <= 255:
+                        acc.violation('banner:built_raises:%s' % core.ename(e),
+                                      'a banner of %d octets cannot be built and composed' % len(canonical), w)
+                if back is not None and len(back) > 255:
+                    acc.violation('banner:built_composed_longer_than_255',
+                                  'SshProtocolMessage with a %d-character %s composes a %d-octet identification string '
+                                  '(limit 255, RFC 4253 s4.2)' % (len(sw if where == 'software' else comment), where,
+                                                                  len(back)), w)
+                elif back is not None and back != canonical:
+                    acc.violation('banner:built_compose_differs', 'built banner composes as %r' % back[:60], w)
+                acc.state(core.h64('banner-len', total, crlf, where))
     acc.sample({'kind': 'banner', 'wire': ref.banner('2.0', 'OpenSSH_8.9', 'c')}, 1)
     return acc.result()
 
